@@ -679,10 +679,8 @@ func Run07(t *testing.T, pl any) *simcore.Result {
 			}
 			stack[string(path)] = append([]byte{}, blob...)
 		})
-		for _, kv := range kvs {
-			if err := st.Update(kv.K, kv.V); err != nil {
-				return fail(simcore.Violf("stacktrie-update", "trie %d: StackTrie.Update(%x): %v", ti, kv.K, err))
-			}
+		if k, err := feedStack(st, kvs); err != nil {
+			return fail(simcore.Violf("stacktrie-update", "trie %d: StackTrie.Update(%x): %v", ti, k, err))
 		}
 		sroot := st.Hash()
 		if dup != "" {
